@@ -10,9 +10,11 @@ import numpy
 from common import (Stream, budget, enc_op, canon_op_json, to_gq, dyadic, rng_for, show, gq_key)
 
 TRUSTED = [
-    'C04: the float paths jordan_wigner_dual_basis_jellium / jordan_wigner_dual_basis_hamiltonian (cos, pi) are '
-    'compared with jordan_wigner(of the FermionOperator model) with absolute tolerance 1e-9 only (counted as '
-    'float_comparisons); they have no Lean Model',
+    'C04: the momentum sums of jordan_wigner_dual_basis_jellium / dual_basis_jellium_model (cos, pi; floating point) are '
+    'not modelled: the Lean Model takes them as tables K(delta), P(delta) (the FermionOperator model is then compared '
+    'exactly, the direct form exactly on its strings and to 1e-9 on its coefficients, counted as float_comparisons); '
+    'jordan_wigner_dual_basis_hamiltonian (external potential) has no Lean Model and is compared with '
+    'jordan_wigner(of the FermionOperator model) with absolute tolerance 1e-9 only',
 ]
 ASSUMPTIONS = [
     'coefficients are dyadic Gaussian rationals with small numerators, on which IEEE double arithmetic of the '
@@ -34,8 +36,13 @@ OPEN_STATEMENTS = [
     'linearity / multiplicativity / dagger-compatibility of jordan_wigner are consequences of jw_exact in the Spec '
     'semantics (jw_mul_sound, jw_add_sound are the Model-level halves); they are not stated as separate theorems and '
     'are checked exactly on the implementation\'s values',
-    'jordan_wigner_dual_basis_jellium / jordan_wigner_dual_basis_hamiltonian: no Model (float cos/pi); compared with '
-    'jordan_wigner of the FermionOperator model, tolerance 1e-9',
+    'jw_jellium_direct_sound / jw_jellium_direct_eq_jordan_wigner / jellium_grid_index_structure ARE theorems (every '
+    'grid, every dimension and lengths, spinless / spinful, with / without constant) over the exact index structure with '
+    'the momentum sums abstract; hypotheses: K, P even, sum of P over the grid = 0 (true for the real sums; for the '
+    'library\'s floats they hold to rounding and are checked numerically on every generated grid), exact-regime flags '
+    '(which FAIL on grids where a coefficient is an exact-zero sum evaluated to ~1e-17 and then deleted by +=: counted)',
+    'jordan_wigner_dual_basis_hamiltonian: no Model (float cos/pi); compared with jordan_wigner of the FermionOperator '
+    'model, tolerance 1e-9',
 ]
 
 ERRS = (TypeError, ValueError, IndexError, KeyError, AttributeError, RuntimeError, ZeroDivisionError,
@@ -693,6 +700,146 @@ def stream_jellium(ctx):
 
 
 
+# ---------------------------------------------------------------- dual-basis jellium: Model over the index structure
+
+def jellium_tables(grid, np):
+    """K(delta), P(delta) of dual_basis_jellium_model, computed with the very float operations (and order) of
+    the library loop, as exact dyadic rationals; indexed by the tensor factor of the displacement"""
+    n_points = grid.num_points
+    position_prefactor = 2.0 * np.pi / grid.volume_scale()
+    pts = list(grid.all_points_indices())
+    momenta_of = {i: grid.momentum_vector(i) for i in pts}
+    origin = (0,) * grid.dimensions
+    r0 = grid.position_vector(origin)
+    kin, pot = {}, {}
+    for b in pts:
+        diff = grid.position_vector(b) - r0
+        kc = 0.0
+        pc = 0.0
+        for mi in pts:
+            momenta = momenta_of[mi]
+            msq = momenta.dot(momenta)
+            if msq == 0:
+                continue
+            cos_difference = np.cos(momenta.dot(diff))
+            kc += cos_difference * msq / (2.0 * float(n_points))
+            pc += position_prefactor * cos_difference / msq
+        kin[b] = kc
+        pot[b] = pc
+
+    def tf(idx):
+        t, stride = 0, 1
+        for d, i in enumerate(idx):
+            t += i * stride
+            stride *= grid.length[d]
+        return t
+    K = [0.0] * n_points
+    P = [0.0] * n_points
+    for b in pts:
+        K[tf(b)] = kin[b]
+        P[tf(b)] = pot[b]
+    return pts, kin, pot, K, P
+
+
+def stream_jellium_model(ctx):
+    of = ctx.of
+    import importlib
+    import numpy as np
+    jl = importlib.import_module('openfermion.hamiltonians.jellium')
+    from openfermion.utils import Grid
+    st = Stream('dual-basis-jellium-model', 'Model of dual_basis_jellium_model and jordan_wigner_dual_basis_jellium over '
+                'the exact index structure (all_points_indices, orbital_id, grid_indices, shifts modulo the lengths, spin '
+                'bookkeeping, skipped strings) with the momentum sums K(delta), P(delta) as given tables (computed with the '
+                'library loop\'s own float operations, passed as exact dyadics): the FermionOperator model is compared EXACTLY '
+                '(keys and coefficients); the direct qubit form is compared exactly on its set of strings and to 1e-9 on '
+                'coefficients (its four momentum sums are closed forms in K(0), P(0), K(delta), P(delta) in the Model); the '
+                'hypotheses of jw_jellium_direct_sound (K, P even, sum of P over the grid = 0) are evaluated numerically; '
+                'grids 1-D..3-D, unequal lengths, sheared cells, spinless / spinful, with / without Madelung constant')
+    grids = [(1, 2, 1.0), (1, 3, 2.0), (1, 4, 1.5), (2, 2, 1.0), (2, (2, 3), 1.0), (2, (3, 2), 1.5),
+             (2, 2, np.diag([1.0, 1.7])), (2, (2, 3), np.array([[1.0, 0.3], [0.0, 1.2]])), (1, 5, 0.75)]
+    if ctx.tier == 'thorough' or ctx.drift:
+        grids += [(2, 3, 2.0), (3, 2, 1.0), (3, (2, 1, 3), 1.0), (2, (3, 2), np.diag([0.8, 1.3])),
+                  (3, (2, 1, 2), np.diag([1.0, 1.5, 0.7])), (1, 7, 1.0), (2, (4, 2), 1.0)]
+    reqs = []
+    for (d, l, scale) in grids:
+        cubic = isinstance(scale, float)
+        for spinless in (True, False):
+            grid = Grid(d, l, scale)
+            npts = grid.num_points
+            if npts * (1 if spinless else 2) > 18:
+                continue
+            lengths = [int(x) for x in grid.length]
+            ok, tabs = call(st, 'grid vectors', {'grid': [d, lengths]}, lambda: jellium_tables(grid, np))
+            if not ok:
+                continue
+            pts, kin, pot, K, P = tabs
+            # hypotheses of the theorem, numerically
+            sub = lambda a, b: tuple((x - y) % L for x, y, L in zip(a, b, lengths))     # noqa: E731
+            zero = tuple([0] * d)
+            even = max([abs(kin[sub(zero, b)] - kin[b]) + abs(pot[sub(zero, b)] - pot[b]) for b in pts])
+            psum = abs(sum(pot[b] for b in pts))
+            scale_p = max(1.0, max(abs(pot[b]) for b in pts))
+            st.float_comparisons += 2 * len(pts) + 1
+            st.count('hypothesis K, P even: %s' % ('holds to 1e-9' if even <= 1e-9 * scale_p else 'FAILS'))
+            st.count('hypothesis sum P = 0: %s' % ('holds to 1e-9' if psum <= 1e-9 * scale_p * len(pts) else 'FAILS'))
+            for const in ((False, True) if cubic else (False,)):
+                cval = (2.8372 / grid.volume_scale() ** (1.0 / grid.dimensions)) if const else None
+                shown = [d, lengths, scale if cubic else np.asarray(scale).tolist()]
+                case = {'fn': 'dual_basis_jellium_model / jordan_wigner_dual_basis_jellium', 'grid': shown,
+                        'spinless': spinless, 'include_constant': const}
+                st.case(case)
+                st.count('jellium-model:d=%d:%s' % (d, 'spinless' if spinless else 'spinful'))
+                args = {'lengths': lengths, 'spinless': spinless, 'kin': [to_gq(x) for x in K],
+                        'pot': [to_gq(x) for x in P], 'constant': None if cval is None else to_gq(cval)}
+                ok1, F = call(st, 'dual_basis_jellium_model', case,
+                              lambda: jl.dual_basis_jellium_model(grid, spinless, True, True, const))
+                ok2, Q = call(st, 'jordan_wigner_dual_basis_jellium', case,
+                              lambda: jl.jordan_wigner_dual_basis_jellium(grid, spinless, const))
+                if ok1:
+                    reqs.append(('model', case, enc_op('fermion', F.terms), dict(args, op='c04.jellium_model')))
+                    reqs.append(('ok', case, None, dict(args, op='c04.jellium_model_ok')))
+                if ok2:
+                    reqs.append(('direct', case, enc_op('qubit', Q.terms), dict(args, op='c04.jellium_direct')))
+                    reqs.append(('ok', case, None, dict(args, op='c04.jellium_direct_ok')))
+        ok, mp = call(st, 'all_points_indices', {'grid': [d, lengths]}, lambda: [list(map(int, x)) for x in Grid(d, l, scale).all_points_indices()])
+        if ok:
+            reqs.append(('points', {'fn': 'all_points_indices', 'lengths': lengths}, mp,
+                         {'op': 'c04.jellium_points', 'lengths': lengths}))
+    answers = ctx.driver.run([r[3] for r in reqs])
+    from common import from_gq
+    for (kind, case, impl, _), mo in zip(reqs, answers):
+        if kind == 'ok':
+            st.count('theorem-hypothesis exact-regime: %s' % ('holds' if mo else 'fails (tolerance deletion)'))
+        elif kind == 'points':
+            if impl != mo:
+                st.disagree('all_points_indices: order differs', case, impl, mo)
+        elif kind == 'model':
+            if canon_op_json(impl) != canon_op_json(mo):
+                st.disagree('dual_basis_jellium_model: terms differ', case, impl, mo)
+        else:
+            ki = {json_key(t): c for t, c in impl}
+            km = {json_key(t): c for t, c in mo}
+            if set(ki) != set(km):
+                st.disagree('jordan_wigner_dual_basis_jellium: set of strings differs', case,
+                            sorted(set(ki) - set(km))[:5], sorted(set(km) - set(ki))[:5])
+                continue
+            big = max([1.0] + [abs(complex(*[float(x) for x in from_gq(c)])) for c in km.values()])
+            worst = 0.0
+            for k in ki:
+                a = complex(*[float(x) for x in from_gq(ki[k])])
+                b2 = complex(*[float(x) for x in from_gq(km[k])])
+                worst = max(worst, abs(a - b2))
+            st.float_comparisons += len(ki)
+            if worst > 1e-9 * big:
+                st.violate('jordan_wigner_dual_basis_jellium: coefficient differs from the Model closed form', case,
+                           {'max_abs_difference': worst})
+    return st
+
+
+def json_key(t):
+    return tuple(tuple(f) for f in t)
+
+
 # ---------------------------------------------------------------- replay of a recorded failing input
 
 def _op_from_json(of, cls, jop):
@@ -1333,4 +1480,4 @@ def stream_hardening(ctx):
 
 def run(ctx):
     return [stream_fermion(ctx), stream_helpers(ctx), stream_tensors(ctx), stream_reverse(ctx),
-            stream_jellium(ctx), stream_hardening(ctx)]
+            stream_jellium(ctx), stream_jellium_model(ctx), stream_hardening(ctx)]
